@@ -27,8 +27,13 @@ LN = ('trusted: the simulator kernel (sim/), LockSocket as a model of a blocking
       'clients are the real comms.acquire/release (a client that sends acquire twice or release while waiting is not generated)')
 
 
-def lock(name, runs_q, runs_t, **cfg):
-    return dict(name=name, world='worlds.lock', cfg=cfg, runs=dict(quick=runs_q, thorough=runs_t))
+def lock(name, runs_q, runs_t, chunk=None, **cfg):
+    # chunk = runs per forked child.  A run of the enumeration batch is a whole scenario executed ~50-100 times (seconds of
+    # CPU): few runs per child keep a chunk far below the run server's watchdog also on a loaded machine.
+    d = dict(name=name, world='worlds.lock', cfg=cfg, runs=dict(quick=runs_q, thorough=runs_t))
+    if chunk:
+        d['chunk'] = chunk
+    return d
 
 
 PROPS = {
@@ -40,8 +45,10 @@ PROPS = {
                 'grant_to_client_that_already_died_unnoticed', 'holder_connection_lost', 'waiter_connection_lost',
                 'client_spinning_on_eof', 'final_state_checked'],
         batches=[
-            lock('fault-free', 800, 20000, faults=False),
-            lock('disconnect-enumeration', 192, 3200, faults=True),
+            # the heavy batch first: chunks are queued in batch order and the wall budget cuts the tail; every run of
+            # the enumeration batch starts with a fault-free execution, so fault-free behaviour is covered either way
+            lock('disconnect-enumeration', 192, 3200, chunk=4, faults=True),
+            lock('fault-free', 480, 16000, faults=False),
         ],
         wall=dict(quick=75, thorough=900),
         assumptions=['clients are well-formed (real comms.acquire / comms.release / Connector); one acquire per connection',
